@@ -1,8 +1,18 @@
-(* C04 - Address <-> source answers agree with the binary's DWARF.
+(* C04 - Address <-> source answers agree with the binary's DWARF.  State of /repo: HEAD 9f6d836,
+   i.e. after the repairs 5a7aaa1 (exact place / prev), e485ae3 (pc -> row, stable sort),
+   0bd2878 (find_closest_place), 6aa083d (prolog_end_place).
    Only statements, `exact <lemma>`, one non-vacuity example and Print Assumptions live here.
    Names: plain = proved in full; _partial = proved under the stated extra hypothesis (each has a
-   boolean decision procedure in ProofsLineTable.v); _refuted = the full statement is false of the
-   faithful model, closed on a concrete witness. *)
+   boolean decision procedure in LineTableProofs.v); _refuted = the full statement is false of the
+   faithful model, closed on a concrete witness.
+
+   _old (refuted on the code before the repairs, now gone; see old/ for the development):
+     find_place_by_pc_refuted (W1, end_sequence row answered for the first instruction of a function)
+       -> now C04_pc_row_partial holds with the weaker [tie_ok], Example find_place_by_pc_w1_repaired;
+     find_exact_place_by_pc_row0_panics / find_exact_refuted (W2) -> C04_exact_place_no_panic, C04_exact_place_row0;
+     find_closest_place_every_function_refuted / _flags_refuted (W3, W4), find_closest_place_overflow (Panic 8)
+       -> C04_line_places_one_per_function, C04_line_places_sound for every u64 line;
+     fn_bp_refuted_no_prologue_end / _next_function (W5, W6) -> C04_fn_bp_inside. *)
 From BS Require Import Model.Base.
 From BS Require Import Model.LineTable Proofs.LineTableProofs.
 Local Open Scope N_scope.
@@ -14,44 +24,52 @@ Theorem C04_binary_search : forall keys pc, sorted_keys keys ->
 Proof. exact bsearch_ok. Qed.
 
 (* ---- pc -> row ---- *)
-(* what find_place_by_pc computes: the last row with address <= pc, row 0 if there is none *)
+(* what find_place_by_pc computes on a sorted vector: among the rows of the greatest address <= pc
+   (of the lowest address if all are above pc) the last one that does not end a sequence, the
+   end_sequence row only when every row of that address ends a sequence *)
 Theorem C04_pc_row_exact : forall u pc, sorted_rows (u_rows u) -> files_ok u ->
   (u_rows u = [] /\ find_place_by_pc u pc = Ok None) \/
-  exists i r, find_place_by_pc u pc = Ok (Some (i, r)) /\ nth_error (u_rows u) i = Some r /\
-    (forall j x, (i < j)%nat -> nth_error (u_rows u) j = Some x -> pc < r_addr x) /\
-    (r_addr r <= pc \/ (i = 0%nat /\ forall x, In x (u_rows u) -> pc < r_addr x)).
+  exists m r, find_place_by_pc u pc = Ok (Some (m, r)) /\ nth_error (u_rows u) m = Some r /\
+    (forall x, In x (u_rows u) -> r_addr x <= r_addr r \/ pc < r_addr x) /\
+    (r_addr r <= pc \/ forall x, In x (u_rows u) -> pc < r_addr x) /\
+    ((r_es r = false /\
+      forall j y, (m < j)%nat -> nth_error (u_rows u) j = Some y -> r_addr y = r_addr r -> r_es y = true) \/
+     (forall y, In y (u_rows u) -> r_addr y = r_addr r -> r_es y = true)).
 Proof. exact find_place_by_pc_exact. Qed.
 
 (* the row the DWARF line table (program order [prog]) designates for pc is the row answered,
-   provided the sort left that row last among the rows of its address ([tie_ok]) *)
+   provided that row is the last non-end_sequence row of its address in the sorted vector and no
+   foreign row lies inside its interval ([tie_ok], decider [tie_okb]) *)
 Theorem C04_pc_row_partial : forall u prog pc r,
   sorted_rows (u_rows u) -> files_ok u -> tie_ok prog (u_rows u) ->
   place_of prog pc r ->
   exists i, find_place_by_pc u pc = Ok (Some (i, r)) /\ nth_error (u_rows u) i = Some r.
 Proof. exact find_place_by_pc_partial. Qed.
 
-(* without [tie_ok]: the first instruction of a function is answered with the end_sequence row of
-   the function that ends there *)
-Theorem C04_pc_row_refuted :
-  exists prog u pc r,
-    u_rows u = stable_sort prog /\ sorted_rowsb (u_rows u) = true /\ files_okb u = true /\
-    place_ofb prog pc r = true /\
-    exists i x, find_place_by_pc u pc = Ok (Some (i, x)) /\ r_es x = true /\ r_line x <> r_line r.
-Proof. exact find_place_by_pc_refuted. Qed.
+(* still false: "no row covers pc => None" *)
+Theorem C04_pc_row_none_refuted :
+  exists u pc1 pc2, sorted_rowsb (u_rows u) = true /\ tie_okb (u_rows u) (u_rows u) = true /\
+    no_placeb (u_rows u) pc1 = true /\ no_placeb (u_rows u) pc2 = true /\
+    find_place_by_pc u pc1 = Ok (Some (0%nat, R 16 1 3 0 true false false false)) /\
+    find_place_by_pc u pc2 = Ok (Some (1%nat, R 32 1 4 0 true false false true)).
+Proof. exact find_place_by_pc_none_refuted. Qed.
 
-(* ---- exact place: first row at pc; panics (overflow checks on) when that row is row 0 ---- *)
-Theorem C04_exact_place : forall ovf u pc, sorted_rows (u_rows u) -> files_ok u ->
-  ((forall x, In x (u_rows u) -> r_addr x <> pc) /\ find_exact_place_by_pc ovf u pc = Ok None) \/
+(* ---- exact place: never a panic; first row at pc, row 0 included ---- *)
+Theorem C04_exact_place_no_panic : forall u pc, files_ok u ->
+  exists r, find_exact_place_by_pc u pc = Ok r.
+Proof. exact find_exact_place_by_pc_no_panic. Qed.
+
+Theorem C04_exact_place : forall u pc, sorted_rows (u_rows u) -> files_ok u ->
+  ((forall x, In x (u_rows u) -> r_addr x <> pc) /\ find_exact_place_by_pc u pc = Ok None) \/
   exists f rf, nth_error (u_rows u) f = Some rf /\ r_addr rf = pc /\
     (forall j x, (j < f)%nat -> nth_error (u_rows u) j = Some x -> r_addr x < pc) /\
-    find_exact_place_by_pc ovf u pc = (if (Nat.eqb f 0 && ovf)%bool then Panic 3 else Ok (Some (f, rf))).
+    find_exact_place_by_pc u pc = Ok (Some (f, rf)).
 Proof. exact find_exact_place_by_pc_exact. Qed.
 
-Theorem C04_exact_place_row0_panics : forall u r0 t,
+Theorem C04_exact_place_row0 : forall u r0 t,
   sorted_rows (u_rows u) -> files_ok u -> u_rows u = r0 :: t ->
-  find_exact_place_by_pc true u (r_addr r0) = Panic 3 /\
-  find_exact_place_by_pc false u (r_addr r0) = Ok (Some (0%nat, r0)).
-Proof. exact find_exact_place_by_pc_row0_panics. Qed.
+  find_exact_place_by_pc u (r_addr r0) = Ok (Some (0%nat, r0)).
+Proof. exact find_exact_place_by_pc_row0. Qed.
 
 (* ---- pc -> unit ---- *)
 Theorem C04_unit_partial : forall units pc, units_ok units ->
@@ -65,8 +83,7 @@ Theorem C04_unit_refuted :
                unit_has_pc u pc = Ok true /\ unit_coversb u pc = false.
 Proof. exact unit_has_pc_refuted. Qed.
 
-(* ---- pc -> function (full, per unit): None iff no function range contains pc, else the
-   containing function whose range begins last (innermost) ---- *)
+(* ---- pc -> function (full, per unit) ---- *)
 Theorem C04_function_in_unit : forall u pc, sorted_keys (map dr_begin (u_die_ranges u)) ->
   (find_function_in_unit u pc = Ok None /\ forall d info, ~ fn_hit_ok u pc d info) \/
   exists d info, find_function_in_unit u pc = Ok (Some (d, info)) /\ fn_hit_ok u pc d info /\
@@ -87,93 +104,105 @@ Theorem C04_function_partial : forall units pc k u d info,
 Proof. exact find_function_by_pc_partial. Qed.
 
 (* ---- file:line -> places ---- *)
+(* every place is an is_stmt, non-end_sequence row of L (of L+1 only when L has none); non-empty if L has code *)
 Theorem C04_line_places_sound : forall ovf units files line ps,
-  line < U64_MAX ->
   find_closest_place ovf units files line = Ok ps ->
   line_places_ok units files line ps /\ (line_has_code units files line -> ps <> []).
 Proof. exact find_closest_place_sound. Qed.
 
-(* no two answered places lie in the same (name, ranges) subprogram *)
+(* no two places in the same (name, ranges) subprogram *)
 Theorem C04_line_places_one_per_key : forall ovf units files line ps,
-  find_closest_place ovf units files line = Ok ps -> distinct_from units [] ps.
+  find_closest_place ovf units files line = Ok ps -> NoDup (filter_map (pkey units) ps).
 Proof. exact find_closest_place_one_per_key. Qed.
 
-Theorem C04_line_places_every_function_refuted :
-  exists u files line g ps,
-    sorted_rowsb (u_rows u) = true /\ tie_okb (u_rows u) (u_rows u) = true /\ files_okb u = true /\
-    In g (u_fns u) /\ fn_has_line u 1 line g = true /\
-    find_closest_place true [u] files line = Ok ps /\
-    existsb (fun p => addr_in_fn g (r_addr (snd (snd p)))) ps = false.
-Proof. exact find_closest_place_every_function_refuted. Qed.
+(* every candidate row is represented by a place of its subprogram (or by itself if it has none) *)
+Theorem C04_line_places_complete : forall ovf units files line ps Lc,
+  find_closest_place ovf units files line = Ok ps -> chosen_line units files line Lc ->
+  forall ui f u i r, In (ui, f) files -> nth_error units ui = Some u ->
+    nth_error (u_rows u) i = Some r -> stmt_row f Lc r = true ->
+    match akey units (r_addr r) with
+    | None => In (ui, (i, r)) ps
+    | Some k => exists q, In q ps /\ pkey units q = Some k
+    end.
+Proof. exact find_closest_place_complete. Qed.
 
-Theorem C04_line_places_flags_refuted :
-  exists u files line g ps,
-    sorted_rowsb (u_rows u) = true /\ tie_okb (u_rows u) (u_rows u) = true /\ files_okb u = true /\
-    In g (u_fns u) /\ fn_has_line u 1 line g = true /\
-    find_closest_place true [u] files line = Ok ps /\
-    existsb (fun p => addr_in_fn g (r_addr (snd (snd p)))) ps = false.
-Proof. exact find_closest_place_flags_refuted. Qed.
+(* every function that contains the line gets exactly one place ([fn_resolves], decider [fn_resolvesb]:
+   rows of the line are in g's ranges iff find_function_by_pc attributes them to g) *)
+Theorem C04_line_places_one_per_function : forall ovf units files line ps Lc g ui f u,
+  find_closest_place ovf units files line = Ok ps -> chosen_line units files line Lc ->
+  fn_resolves units files Lc g ->
+  In (ui, f) files -> nth_error units ui = Some u -> fn_has_line u f Lc g = true ->
+  exists l1 q l2, ps = l1 ++ q :: l2 /\ addr_in_fn g (r_addr (snd (snd q))) = true /\
+    forall x, In x (l1 ++ l2) -> addr_in_fn g (r_addr (snd (snd x))) = false.
+Proof. exact find_closest_place_one_per_function. Qed.
 
 (* ---- function -> breakpoint address ---- *)
-Theorem C04_fn_bp_exact : forall units f ui i r,
+(* inside the function's ranges, not an end_sequence row, prologue_end if one is reachable *)
+Theorem C04_fn_bp_inside : forall units f ui i r,
   (forall u, In u units -> files_ok u) ->
-  prolog_start_place units f = Ok (ui, (i, r)) ->
+  prolog_start_place units f = Ok (ui, (i, r)) -> r_es r = false -> in_fn f r = true ->
   exists u j rj, nth_error units ui = Some u /\ nth_error (u_rows u) i = Some r /\
-    prolog_end_place units f = Ok (ui, (j, rj)) /\ (i <= j)%nat /\ nth_error (u_rows u) j = Some rj /\
-    (forall k x, (i <= k < j)%nat -> nth_error (u_rows u) k = Some x -> r_pe x = false) /\
-    (r_pe rj = true \/ (r_pe rj = false /\ S j = length (u_rows u))).
-Proof. exact prolog_end_place_exact. Qed.
+    prolog_end_place units f = Ok (ui, (j, rj)) /\ nth_error (u_rows u) j = Some rj /\
+    r_es rj = false /\ in_fn f rj = true /\ reach u f i j /\
+    (r_pe rj = true \/
+     forall m y, reach u f i m -> nth_error (u_rows u) m = Some y -> r_es y = false -> r_pe y = false).
+Proof. exact prolog_end_place_inside. Qed.
 
+(* the specification [fn_bp_ok] (prologue_end row whenever the function has one in its ranges) *)
 Theorem C04_fn_bp_partial : forall units f ui i r u,
   (forall v, In v units -> files_ok v) ->
   prolog_start_place units f = Ok (ui, (i, r)) -> nth_error units ui = Some u ->
-  pe_in_fnb u f i = true ->
+  r_es r = false -> in_fn f r = true -> pe_reach_okb u f i = true ->
   exists j rj, prolog_end_place units f = Ok (ui, (j, rj)) /\ nth_error (u_rows u) j = Some rj /\
-    r_pe rj = true /\ r_es rj = false /\ addr_in_fn f (r_addr rj) = true.
+               fn_bp_ok u f rj = true.
 Proof. exact fn_bp_partial. Qed.
 
-Theorem C04_fn_bp_refuted_no_prologue_end :
+(* remaining (contrived) violations of [fn_bp_ok] *)
+Theorem C04_fn_bp_split_ranges_refuted :
   exists u f, sorted_rowsb (u_rows u) = true /\ files_okb u = true /\ fn_lookup u (f_off f) = Some f /\
-    exists j rj, prolog_end_place [u] f = Ok (0%nat, (j, rj)) /\
-                 r_addr rj = 48 /\ r_es rj = true /\ addr_in_fn f (r_addr rj) = false /\ fn_bp_ok u f rj = false.
-Proof. exact fn_bp_refuted_no_prologue_end. Qed.
+    exists j rj, prolog_end_place [u] f = Ok (0%nat, (j, rj)) /\ in_fn f rj = true /\ r_es rj = false /\
+                 fn_pe_rows u f <> [] /\ r_pe rj = false /\ fn_bp_ok u f rj = false.
+Proof. exact fn_bp_split_ranges_refuted. Qed.
 
-Theorem C04_fn_bp_refuted_next_function :
-  exists u f g, sorted_rowsb (u_rows u) = true /\ files_okb u = true /\
-    fn_lookup u (f_off f) = Some f /\ fn_lookup u (f_off g) = Some g /\ f_off f <> f_off g /\
-    exists j rj, prolog_end_place [u] f = Ok (0%nat, (j, rj)) /\
-                 addr_in_fn f (r_addr rj) = false /\ addr_in_fn g (r_addr rj) = true.
-Proof. exact fn_bp_refuted_next_function. Qed.
+Theorem C04_fn_bp_no_row_at_low_pc_refuted :
+  exists u f, sorted_rowsb (u_rows u) = true /\ files_okb u = true /\ fn_lookup u (f_off f) = Some f /\
+    exists j rj, prolog_end_place [u] f = Ok (0%nat, (j, rj)) /\ in_fn f rj = false.
+Proof. exact fn_bp_no_row_at_low_pc_refuted. Qed.
 
-(* non-vacuity: the checker on the witness table.  The debugger's (= model's) answer for pc 0x20
-   violates the specification (verdict 2); the row DWARF designates would get verdict 1; a
-   well-behaved query gets 0. *)
+(* non-vacuity: the checker on the former W1 table.  The repaired answer (row 1, B's first row) for
+   pc 0x20 now agrees with model and spec; the old answer (row 2, A's end_sequence row) violates the spec. *)
 Example C04_example :
-  lt_check (LC true [wit_unit] [wit_prog] (QPlace 0 32) (ARow 0 2)) = 2 /\
-  lt_check (LC true [wit_unit] [wit_prog] (QPlace 0 32) (ARow 0 1)) = 1 /\
-  lt_check (LC true [wit_unit] [wit_prog] (QPlace 0 37) (ARow 0 3)) = 0 /\
-  lt_check (LC true [wit_unit] [wit_prog] (QFunc 37) (AFunc 0 200)) = 0 /\
-  lt_check (LC true [wit_unit] [wit_prog] (QLine [(0, 1)] 8) (ARows [(0, 3)])) = 0 /\
-  lt_check (LC true [wit_unit] [wit_prog] (QFnBp 0 200) (ARow 0 3)) = 0 /\
-  lt_check (LC true [wit_unit] [wit_prog] (QFnBp 0 100) (ARow 0 3)) = 2 /\
-  lt_check (LC true [wit_unit] [wit_prog] (QExact 0 16) APanic) = 2.
+  lt_check (LC false [wit_unit] [wit_prog] (QPlace 0 32) (ARow 0 1)) = 0 /\
+  lt_check (LC false [wit_unit] [wit_prog] (QPlace 0 32) (ARow 0 2)) = 2 /\
+  lt_check (LC false [wit_unit] [wit_prog] (QPlace 0 37) (ARow 0 3)) = 0 /\
+  lt_check (LC false [wit_unit] [wit_prog] (QFunc 37) (AFunc 0 200)) = 0 /\
+  lt_check (LC false [wit_unit] [wit_prog] (QLine [(0, 1)] 8) (ARows [(0, 3)])) = 0 /\
+  lt_check (LC false [wit_unit] [wit_prog] (QFnBp 0 200) (ARow 0 3)) = 0 /\
+  lt_check (LC false [wit_unit] [wit_prog] (QFnBp 0 100) (ARow 0 0)) = 0 /\
+  lt_check (LC true [wit_unit] [wit_prog] (QExact 0 16) (ARow 0 0)) = 0 /\
+  lt_check (LC true [two_fn_unit] [] (QLine [(0, 1)] 7) (ARows [(0, 2); (0, 5)])) = 0 /\
+  lt_check (LC true [two_fn_unit] [] (QLine [(0, 1)] 7) (ARows [(0, 5)])) = 2 /\
+  lt_check (LC true [gcc_unit] [] (QFnBp 0 100) (ARow 0 1)) = 0 /\
+  lt_check (LC true [gcc_unit] [] (QFnBp 0 100) (ARow 0 4)) = 2.
 Proof. vm_compute. repeat split; reflexivity. Qed.
 
 Print Assumptions C04_binary_search.
 Print Assumptions C04_pc_row_exact.
 Print Assumptions C04_pc_row_partial.
-Print Assumptions C04_pc_row_refuted.
+Print Assumptions C04_pc_row_none_refuted.
+Print Assumptions C04_exact_place_no_panic.
 Print Assumptions C04_exact_place.
-Print Assumptions C04_exact_place_row0_panics.
+Print Assumptions C04_exact_place_row0.
 Print Assumptions C04_unit_partial.
+Print Assumptions C04_unit_refuted.
 Print Assumptions C04_function_in_unit.
 Print Assumptions C04_function_sound.
 Print Assumptions C04_function_partial.
 Print Assumptions C04_line_places_sound.
 Print Assumptions C04_line_places_one_per_key.
-Print Assumptions C04_line_places_every_function_refuted.
-Print Assumptions C04_line_places_flags_refuted.
-Print Assumptions C04_fn_bp_exact.
+Print Assumptions C04_line_places_complete.
+Print Assumptions C04_line_places_one_per_function.
+Print Assumptions C04_fn_bp_inside.
 Print Assumptions C04_fn_bp_partial.
-Print Assumptions C04_fn_bp_refuted_no_prologue_end.
-Print Assumptions C04_fn_bp_refuted_next_function.
+Print Assumptions C04_fn_bp_split_ranges_refuted.
+Print Assumptions C04_fn_bp_no_row_at_low_pc_refuted.
